@@ -250,6 +250,7 @@ def run(ctx, obl):
             res.hist("shape", c["shape"])
             res.hist("run-mode", c["mode"] + ("+spread" if c["spread"] and c["mode"].startswith("file") else ""))
             res.hist("rerun", str(c["rerun"]))
+            res.hist("generated-header-file", str(bool(c["en"].get("genheader"))))
             res.hist("edit-history", c["edit"])
             res.hist("requested-feature", c["en"].get("feature", "random"))
             res.hist("stale-variants", str(len(c["variants"])))
